@@ -554,7 +554,18 @@ pub fn c09_forced_strategy() -> BoxedStrategy<ConcCase> {
             .collect();
         c
     });
-    prop_oneof![6 => random, 1 => structured, 1 => gap, 2 => closing, 2 => pile].boxed()
+    // Close race, structured: one client rotates the memtable a few times without ever having to
+    // wait (1500-byte memtable, 200-320 byte values) and closes; the background thread is held
+    // after one of the flushes until the client is done and lingers into the close.
+    let closing2 = (prop::collection::vec((0u8..6, 200u16..320), 6..14), 0u32..3, 2u32..40, any::<bool>()).prop_map(|(puts, nth, linger_ms, reuse)| ConcCase {
+        cfg: Cfg { memtable: 1500, file: 1024 * 1024, block: 4096, reuse },
+        nkeys: 6,
+        programs: vec![puts.into_iter().map(|(k, l)| COp::Put(k, l)).collect()],
+        directives: vec![Directive { role: -1, point: "worker.tasks_drained".into(), nth, max_hold_ms: 300, linger_ms, every: 0 }],
+        wal_fault: None,
+        preload: 0,
+    });
+    prop_oneof![6 => random, 1 => structured, 1 => gap, 1 => closing, 1 => closing2, 2 => pile].boxed()
 }
 
 pub enum Outcome {
